@@ -310,6 +310,12 @@ func secSmoothers(r *vlib.Run) {
 			switch {
 			case res.undecided:
 				c.Undecided("smooth-mapping:" + res.msg)
+			case !res.ok && (minAngleCos(in.tris) > 0.995 || minAngleCosIdx(mapped, in.im.faces) > 0.999):
+				// Smooth() and SmoothMapping() are two separate runs over a map-ordered face list: their
+				// floating point sums differ in order, and on sliver triangles (ill-conditioned area
+				// gradient) that difference is amplified far beyond the matching tolerance (false alarm
+				// of the first version of this clause at seed 5)
+				c.Undecided("smooth-mapping:ill-conditioned-input-or-trajectory")
 			case !res.ok:
 				c.Violation(api+"/connectivity-under-mapping", "Smooth() is not the input connectivity carried through SmoothMapping(): "+res.msg, in.witness(extra))
 			default:
